@@ -231,6 +231,31 @@ def family_b(tier):
                         yield desc, Msg(name, k, fields, [copy.deepcopy(c) for c in combo], data)
 
 
+def family_b3(tier):
+    """three and four sibling groups on one level (root and inside an entry): the accessor of group k is derived from
+    group k-1, so two siblings are not enough to see a wrong predecessor"""
+    cyc = Cycler()
+    k = 0
+    combos = [("flat", "flat", "flat"), ("flat", "data", "flat"), ("data", "flat", "empty"), ("bigbl", "flat", "data"),
+              ("flat", "flat", "flat", "flat"), ("data", "data", "data")]
+    if tier != "quick":
+        combos += [c for c in itertools.product(("flat", "data", "empty"), repeat=3) if c not in combos]
+    for kinds in combos:
+        for where in ("root", "entry"):
+            for nd in (0, 2):
+                ids = Ids()
+                groups = [make_group(kd, "s%d" % i, ids, cyc, 1, tier)[0] for i, kd in enumerate(kinds)]
+                data = [Data("d%d" % i, 2000 + i, cyc.data()) for i in range(nd)]
+                name = "t%d" % k
+                k += 1
+                desc = "B3:%s:%s:data%d" % (where, "+".join(kinds), nd)
+                if where == "root":
+                    yield desc, Msg(name, k, [Field("r", 1000, "uint16")], groups, data)
+                else:
+                    outer = Group("o", ids.next(), [Field("x", ids.next(), "uint8")], groups, data, dim=cyc.dim())
+                    yield desc, Msg(name, k, [Field("r", 1000, "uint16")], [outer], [Data("md", 3000, cyc.data())])
+
+
 def _gdesc(g):
     s = "const" if any(f.type == "CST" for f in g.fields) and len(g.fields) == 1 else ("f%d" % len(g.fields))
     if g.data:
@@ -247,6 +272,7 @@ def catalogue(tier, byte_order="littleEndian", pack=40, families=("A", "B")):
         msgs += list(family_a(tier))
     if "B" in families:
         msgs += list(family_b(tier))
+        msgs += list(family_b3(tier))
     schemas = []
     tag = "le" if byte_order == "littleEndian" else "be"
     for i in range(0, len(msgs), pack):
